@@ -28,7 +28,7 @@ Print Assumptions C01_bytes.
    ranges, flags and mutators, the bytes it returns satisfy the byte-level oracle.  Through
    FinR.F_in_R (every level-F run is a level-R run whose tokens serialise to the returned bytes).
    names_ok / fmt_ok: the GLOBAL name table and the float formatter produce newline-free,
-   well-formed text (checked on the real table / formatter by suite S2 and SrcConsts);
+   well-formed text (checked on the real table / formatter by suite S2 and SrcStdlibP);
    cfg_small: the opcode range bounds are below 2^32-2; out_fits: the output is shorter than 2^64 *)
 Theorem C01_generated : forall e c src r,
   names_ok e -> fmt_ok e -> cfg_small c -> safeb c = true ->
